@@ -17,14 +17,14 @@ structure PktSt where
   elems : Option (List Bytes) := none
   deriving DecidableEq, Repr, Inhabited
 
-/-- the loop of parseBody.  `i` is the loop counter (compared as `byte(i) == p.W`, so it wraps at
-    256), `rest` = payload[currentIndex:].  Every iteration but a final zero-length one consumes a
-    byte; an iteration that reads a length field always does. -/
+/-- the loop of parseBody.  `i` is the loop counter (the element whose number equals a non-zero W
+    is the last one and has no length field), `rest` = payload[currentIndex:].  An iteration that
+    reads a length field consumes at least one byte; the last-element iteration ends the loop. -/
 def parseBodyLoop (w : UInt8) : Nat → Nat → Bytes → List Bytes → Res (List Bytes)
   | 0, _, _, acc => .ok acc.reverse
   | fuel + 1, i, rest, acc =>
     if rest.isEmpty then .ok acc.reverse
-    else if (i % 256).toUInt8 == w then
+    else if w != 0 && i == w.toNat then
       -- last element: everything that is left
       parseBodyLoop w fuel (i + 1) [] (rest :: acc)
     else
